@@ -1,5 +1,5 @@
 (* C15 - built models are complete, acyclic, uniquely named, frozen, and round-trip. *)
-From Coq Require Import List Arith Bool String.
+From Coq Require Import List Arith Bool String Permutation.
 Import ListNotations.
 From LV Require Import Graph.Build Graph.BuildProofs Graph.BuildNames Graph.TopoProofs.
 Open Scope list_scope.
@@ -387,3 +387,15 @@ Theorem C15_cycle_rejected_by_oracle : forall w ns a,
   NoDup ns -> path w a a -> In a ns -> naive_topo w ns = None.
 Proof. exact cycle_rejected_by_naive_topo. Qed.
 Print Assumptions C15_cycle_rejected_by_oracle.
+
+(* every answer of the oracle is a duplicate-free rearrangement of the node list in which each node
+   comes after all of its inputs *)
+Theorem C15_topo_oracle_order : forall w ns order,
+  NoDup ns -> naive_topo w ns = Some order ->
+  Permutation order ns /\
+  (forall l1 b l2, order = l1 ++ b :: l2 -> forall a, In a (ins_of w b) -> In a l1).
+Proof.
+  intros w ns order Hnd H. split; [exact (naive_topo_permutation w ns order Hnd H)|].
+  exact (proj2 (proj2 (naive_topo_order_respects_inputs w ns order Hnd H))).
+Qed.
+Print Assumptions C15_topo_oracle_order.
